@@ -661,14 +661,48 @@ func fieldsAt(addr ssa.Value, b *ssa.BasicBlock, idx int, depth int) map[string]
 			return out
 		}
 		if len(b.Preds) != 1 {
-			for _, f := range missing() {
-				out[f] = fsrc{Name: f}
+			// join: continue at the immediate dominator when nothing in between may write the location
+			d := b.Idom()
+			if d == nil || writtenBetween(d, b, addr) {
+				for _, f := range missing() {
+					out[f] = fsrc{Name: f}
+				}
+				return out
 			}
-			return out
+			b = d
+			i = len(b.Instrs) - 1
+			continue
 		}
 		b = b.Preds[0]
 		i = len(b.Instrs) - 1
 	}
+}
+
+// writtenBetween: some block strictly between d and b (dominated by d, able to
+// reach b) may write addr.
+func writtenBetween(d, b *ssa.BasicBlock, addr ssa.Value) bool {
+	for _, x := range d.Parent().Blocks {
+		if x == d || x == b || !d.Dominates(x) {
+			continue
+		}
+		if !reachesAvoiding(x, b, nil, nil) {
+			continue
+		}
+		for _, in := range x.Instrs {
+			if mayWriteCell(in, addr) {
+				return true
+			}
+			if st, ok := in.(*ssa.Store); ok {
+				if fa, ok := st.Addr.(*ssa.FieldAddr); ok && fa.X == addr {
+					return true
+				}
+				if st.Addr == addr {
+					return true
+				}
+			}
+		}
+	}
+	return false
 }
 
 // fieldsOfValue decomposes a struct-typed value.
